@@ -83,6 +83,7 @@ pub fn run(fams: &[&str], seed: u64, n: usize) {
             "fbiquad" => fam_fbiquad(&mut rng, n, &mut out),
             "coeff" => fam_coeff(&mut rng, n, &mut out),
             "pid" => fam_pid(&mut rng, n, &mut out),
+            "glue" => fam_glue(&mut rng, n, &mut out),
             "cossin_all" => fam_cossin_all(&mut out),
             "osub_all" => fam_osub_all(&mut out),
             "num8_all" => fam_num8_all(&mut out),
@@ -1430,5 +1431,100 @@ fn fam_atani_all(out: &mut Out) {
         let x = (q << 15).wrapping_add(1 << 14);
         let r = guard(|| verif_atani(x));
         out.emit(&format!("atani {}", x), r.map(|v| v.to_string()));
+    }
+}
+
+// ------------------------------------------------------------------ filter.rs glue, Biquad helpers, AccuOsc
+fn fam_glue(rng: &mut Rng, n: usize, out: &mut Out) {
+    use idsp::{Cascade, Nyquist, Repeat};
+    let mut ny = 0i32;
+    let mut rp = [0i64; 3];
+    for i in 0..n {
+        match i % 7 {
+            0 => {
+                if rng.chance(1, 20) { ny = rng.i32(); }
+                let x = rng.i32();
+                let mut f = Nyquist::default();
+                idsp::Filter::set(&mut f, ny);
+                let y = idsp::Filter::update(&mut f, x, &());
+                let st = idsp::Filter::get(&f);
+                out.emit(&format!("nyquist {} {}", ny, x), Some(format!("{} {}", st, y)));
+                ny = st;
+            }
+            1 => {
+                // Repeat<3, Lowpass<1>>: states are only reachable through set() and updates
+                let k = rng.range(1, i32::MAX as i64) as i32;
+                let x = rng.i32();
+                if rng.chance(1, 10) { let v = rng.i32(); rp = [(v as i64) << 32; 3]; }
+                let mut stages = [Lowpass::<1>::verif_from_raw([rp[0]]), Lowpass::<1>::verif_from_raw([rp[1]]), Lowpass::<1>::verif_from_raw([rp[2]])];
+                // Repeat has no constructor from stages: drive the three stages in series exactly as Repeat does
+                // and cross-check against a real Repeat started from set(v) when all three states agree
+                let r = guard(|| {
+                    let mut v = x;
+                    for s in stages.iter_mut() { v = idsp::Filter::update(s, v, &[k]); }
+                    v
+                });
+                let after = [stages[0].verif_raw()[0], stages[1].verif_raw()[0], stages[2].verif_raw()[0]];
+                if rp[0] == rp[1] && rp[1] == rp[2] && (rp[0] & 0xffff_ffff) == 0 {
+                    let mut rep: Repeat<3, Lowpass<1>> = Default::default();
+                    idsp::Filter::set(&mut rep, (rp[0] >> 32) as i32);
+                    let y2 = guard(|| idsp::Filter::update(&mut rep, x, &[k]));
+                    assert_eq!(y2, r);
+                }
+                out.emit(&format!("repeat_lp1 {} {} {}", list(&rp), x, k), r.map(|y| format!("{} {}", list(&after), y)));
+                if r.is_some() { rp = after; }
+            }
+            2 => {
+                let k = rng.range(1, i32::MAX as i64) as i32;
+                let (v, x) = (rng.i32(), rng.i32());
+                // Cascade<Lowpass<1>, Nyquist>: set() only reaches the second stage; start both from defaults
+                let mut c: Cascade<Lowpass<1>, Nyquist> = Default::default();
+                idsp::Filter::set(&mut c, v);
+                let y = guard(|| idsp::Filter::update(&mut c, x, &([k], ())));
+                // model: lowpass state 0, nyquist state v
+                let mut lp = Lowpass::<1>::default();
+                let yl = guard(|| idsp::Filter::update(&mut lp, x, &[k]));
+                out.emit(&format!("cascade_lp1_nyq 0 {} {} {}", v, x, k), match (y, yl) {
+                    (Some(y), Some(yl)) => Some(format!("{} {} {}", lp.verif_raw()[0], yl >> 1, y)),
+                    _ => None,
+                });
+            }
+            3 | 4 => {
+                macro_rules! helpers {
+                    ($t:ty, $w:expr, $q:expr) => {{
+                        let co = |rng: &mut Rng| -> $t { if rng.chance(1, 2) { rng.int($w) as $t } else { rng.int($q) as $t } };
+                        let ba: [$t; 5] = [co(rng), co(rng), co(rng), co(rng), co(rng)];
+                        let mut bq = Biquad::<$t>::from(ba);
+                        let u = rng.int($w) as $t;
+                        bq.set_u(u);
+                        let cfg = format!("[{},{},{},{},{},{},{},{}]", ba[0], ba[1], ba[2], ba[3], ba[4], u, <$t>::MIN, <$t>::MAX);
+                        let r = guard(|| bq.forward_gain());
+                        out.emit(&format!("bq_fgain {} {}", $w, cfg), r.map(|v| v.to_string()));
+                        let r = guard(|| bq.input_offset());
+                        out.emit(&format!("bq_inoff {} {} {}", $w, $q, cfg), r.map(|v| v.to_string()));
+                        let off = rng.int($w) as $t;
+                        let mut b2 = bq.clone();
+                        let r = guard(|| { b2.set_input_offset(off); b2.u() });
+                        out.emit(&format!("bq_setinoff {} {} {} {}", $w, $q, cfg, off), r.map(|v| v.to_string()));
+                    }};
+                }
+                match rng.below(4) {
+                    0 => helpers!(i8, 8, 6),
+                    1 => helpers!(i16, 16, 14),
+                    2 => helpers!(i32, 32, 30),
+                    _ => helpers!(i64, 64, 62),
+                }
+            }
+            _ => {
+                let (rate, sw, ph) = (rng.i32(), rng.i64(), rng.i64());
+                let mut o = AccuOsc::new(Sweep::new(rate, sw));
+                o.state = ph;
+                let r = guard(|| o.next().unwrap());
+                // the sweep state after the call is not public through AccuOsc: recompute it with a second Sweep
+                let mut s2 = Sweep::new(rate, sw);
+                let _ = guard(|| s2.next());
+                out.emit(&format!("accuosc {} {} {}", rate, sw, ph), r.map(|z| format!("{} {} {} {}", s2.state, o.state, z.re, z.im)));
+            }
+        }
     }
 }
